@@ -63,7 +63,7 @@ func init() {
 		}}
 	props["C03"] = &propSpec{ID: "C03",
 		Rule:       "distinct run digests of histories over >= 2 sessions in which steps outside the observed session were removed for the second execution",
-		NonTrivial: func(r *Result) bool { return trig(r) && r.Triggers["diff_removed_steps"] > 0 },
+		NonTrivial: func(r *Result) bool { return trig(r) && r.Triggers["diff_removed_steps"]+r.Triggers["block"] > 0 },
 		Gen: func(seed uint64, tier string) *Scenario {
 			p := histProfile("C03", map[string]int{"switch": 8}, func(p *Profile) {
 				p.PBurst, p.PBlock = 0, 0
@@ -75,6 +75,17 @@ func init() {
 				p.PProbe = 0.08
 				p.AllModules = true
 			})
+			if seed%4 == 3 {
+				// a quarter of the runs: session ends, creations and joins overlapping at lock
+				// granularity (a reused id must never cut a live session off); no second execution
+				p.Policies = []string{"rand", "pct"}
+				p.PBlock = 0.35
+				p.PClose = 0.12
+				p.BlockOps = []string{"close", "close", "newjoin", "newjoin", "joiner", "switch"}
+				sc := GenHistory(seed, p)
+				sc.Prop = "C03"
+				return sc
+			}
 			sc := GenHistory(seed, p)
 			sc.Prop = "C03"
 			// make sure there are at least two sessions
